@@ -22,6 +22,14 @@ chk("C01", "fbbsim", "exploration",
     TB + " Mailbox handler is the in-memory reference handler.",
     "deterministic simulation (synctest bubble, seeded link schedule) + history oracle", "DESIGN.md 3 C01")
 
+chk("C03", "fbbsim", "exploration",
+    "A real fbb.Session faces the reference peer in Byzantine mode: it follows the real protocol to reach deep states and damages its own output at one seeded layer (raw bytes, handshake, proposals, answers, frames, LZHUF payload, message, pure garbage). Oracle: no panic, no process death (worker isolation), Exchange returns within 5 simulated minutes after the remote closed, connection closed, allocation bounded relative to the bytes received; CPU spins are caught by a wall-clock watchdog and confirmed in a fresh process. Seeded sampling of an unbounded input space.",
+    TB + " Spin detection relies on a real-time watchdog (30 s for millisecond runs).",
+    "deterministic simulation with a Byzantine reference peer (fault injection at every protocol layer)", "DESIGN.md 3 C03")
+chk("C04", "fbbsim", "fault_enumeration",
+    "For seeded scenarios (reference peer -> Session, and Session -> Session) every damage pattern of the SOH..EOT range is executed as its own simulated run: a +1, a ^0x80 and a seeded substitution, a deletion and an insertion at every byte offset, plus seeded sum-preserving pairs and adjacent swaps that the 8-bit block checksum cannot see. An independent reference receiver (own frame parser + own LZHUF decoder with CRC-16/size check) judges the bytes the Session really received; the Session must deliver iff allowed and then exactly the reference decoding, must fail the exchange otherwise, and the sender must not record the message as sent.",
+    TB + " Enumeration covers the first two transfers of each scenario; quick tier thins each transfer's pattern list to 3000.",
+    "fault enumeration in deterministic simulation with an independent reference receiver as oracle", "DESIGN.md 3 C04")
 chk("C05", "fbbsim", "exploration",
     "A real fbb.Session talks to an independently written B2F peer (ref/b2f, written from the protocol documents, never importing fbb) that validates every line and frame the Session emits and uses every conforming encoding the documents allow; a second oracle checks that both sides end in the outcome the protocol prescribes. Seeded sampling over message sets, roles, peer encodings and link schedules.",
     TB + " The reference peer and the independent LZHUF decoder are part of the trusted base; they encode the documents, not real RMS software.",
